@@ -622,7 +622,49 @@ func cmdRun(args []string) int {
 	return exit
 }
 
+var (
+	raceBinOnce sync.Once
+	raceBinErr  error
+)
+
+const raceBin = "/verif/bin/harness.race.test"
+
+func buildRaceBinary() error {
+	raceBinOnce.Do(func() {
+		cmd := exec.Command("go", "test", "-c", "-race", "-vet=off", "-overlay", harnessDir+"/overlay.json", "-o", raceBin, ".")
+		cmd.Dir = harnessDir
+		cmd.Env = append(os.Environ(), "GOFLAGS=-mod=mod", "GOPROXY=off", "CGO_ENABLED=1")
+		out, err := cmd.CombinedOutput()
+		if err != nil {
+			raceBinErr = fmt.Errorf("go test -c -race: %v\n%s", err, out)
+		}
+	})
+	return raceBinErr
+}
+
+// confirmRace replays a witness under the Go race detector (a few runs: the detector needs the two
+// accesses to be unordered in the observed execution, not simultaneous).
+func confirmRace(path string) (bool, string) {
+	if err := buildRaceBinary(); err != nil {
+		return false, err.Error()
+	}
+	for k := 0; k < 15; k++ {
+		cmd := exec.Command("timeout", "60", raceBin, "-test.run", "^TestReplay$", "-test.v", "-test.count=1")
+		cmd.Dir = harnessDir
+		cmd.Env = append(os.Environ(), "SYM_REPLAY="+path)
+		out, _ := cmd.CombinedOutput()
+		if strings.Contains(string(out), "DATA RACE") {
+			return true, "go test -race reports DATA RACE"
+		}
+	}
+	return false, "the Go race detector did not report a race in 15 native runs"
+}
+
 func confirmMonitorFinding(v *Violation, path string, rr replayResult) bool {
+	if v.Kind == "race" {
+		ok, _ := confirmRace(path)
+		return ok
+	}
 	// Monitor findings (frozen store, race, allocation, deadlock) are decided by the engine's
 	// monitors; natively we only require that the witness runs (no assume failure / harness error).
 	return rr.outcome == "OK" || rr.outcome == "VIOLATION" || rr.outcome == "PANIC" || rr.outcome == "TIMEOUT"
